@@ -11,7 +11,7 @@ Open Scope N_scope.
      1  a soap:header written after the soap:body            (Header serialized after Body)
      2  rpc: output message not named <operation>Response      (response wrapper named after the message)
      3  soapAction=""                                           (SOAPAction header omitted)
-     4  style declared neither on soap:binding nor soap:operation (no style constant)
+     4  (fixed in /repo 06e543e: style declared nowhere; clause removed)
      5  document style (or header/fault) part given by type    (accessor element invented)
      6  rpc style part given by element                         (element placed without accessor)
      7  rpc: soap:body parts="..." restriction                  (ignored: all parts in the wrapper)
@@ -61,7 +61,6 @@ Definition op_findings (e : senv) (d : definitions) (b : binding) (po : pt_opera
         [(1%nat, header_first bi && header_first bo');
          (2%nat, negb rpc || ostr_eqb (resolve_local d (ptm_ns po') (ptm_message po')) (Some (bo_name bo ++ s_Response)));
          (3%nat, negb (ostr_eqb (obind (bo_soap bo) so_action) (Some [])));
-         (4%nat, is_some (obind (bo_soap bo) so_style) || is_some (obind (b_soap b) sb_style));
          (5%nat, rpc || (forallb element_part (selected_of d bi pi) && forallb element_part (selected_of d bo' po')));
          (6%nat, negb rpc || (forallb (fun p => negb (element_part p)) (selected_of d bi pi)
                               && forallb (fun p => negb (element_part p)) (selected_of d bo' po')));
